@@ -110,6 +110,8 @@ def configs(ss):
         'Cholera': lambda seed: ss.Sim(n_agents=150, diseases=ss.Cholera(init_prev=0.1, beta=0.9, p_death=0.2), networks=ss.RandomNet(), demographics=dem(), unit='day', dt=1.0, start='2020-01-01', dur=40, rand_seed=seed, verbose=0),
         'Gonorrhea': lambda seed: ss.Sim(n_agents=200, diseases=ss.Gonorrhea(init_prev=0.2, beta={'mf': [0.5, 0.3]}), networks=ss.MFNet(), demographics=dem(), dur=10, rand_seed=seed, verbose=0),
         'HIV': lambda seed: ss.Sim(n_agents=200, diseases=ss.HIV(init_prev=0.1, beta={'mf': [0.3, 0.2]}), networks=ss.MFNet(), demographics=dem(), dur=10, rand_seed=seed, verbose=0),
+        'HIV+pregnancy': lambda seed: ss.Sim(n_agents=300, diseases=ss.HIV(init_prev=0.3, beta={'mf': [0.3, 0.2], 'maternal': [0.9, 0]}), networks=[ss.MFNet(), ss.MaternalNet()],
+                                             demographics=[ss.Pregnancy(fertility_rate=150), ss.Deaths(death_rate=10)], dur=10, rand_seed=seed, verbose=0),
         'Syphilis': lambda seed: ss.Sim(n_agents=300, diseases=ss.Syphilis(init_prev=0.2, beta={'mf': [0.5, 0.3], 'maternal': [0.9, 0]}), networks=[ss.MFNet(), ss.MaternalNet()],
                                         demographics=[ss.Pregnancy(fertility_rate=40), ss.Deaths(death_rate=20)], dur=12, rand_seed=seed, verbose=0),
         # treatment products (one product over one disease, and ONE product over two co-circulating diseases), delivered by a capacity-limited treatment
